@@ -56,6 +56,11 @@ def checkInv (k : Nat) (s : State) : List String :=
     | .uUnl (.readersPass sr) => s.pend == sr - s.qsize && s.W == 0 && s.Q.length != 0
     | .uUnl (.passOnly sr) => s.pend == sr - s.qsize && s.Q.length == 0
     | _ => true) ++
+  chk "pass_ge" (all fun c => match s.pc c with
+    | .uUnl (.readersPass sr) => s.qsize ≤ sr
+    | .uUnl (.passOnly sr) => s.qsize ≤ sr
+    | _ => true) ++
+  chk "out" (all fun c => s.cfg.prog c != [] || (s.pc c == .idle && s.todo c == [])) ++
   chk "jp_le" (s.pass + s.pend ≤ s.ifl.length) ++
   chk "j6" (!s.cfg.fifo || (s.prio ≤ s.WQ.length && (s.Q.length != 0 || s.prio == s.WQ.length))) ++
   chk "j6b" (s.WQ.length == 0 || s.excl != none || s.pw != .none) ++
